@@ -46,15 +46,13 @@ SPEC = {
                "sibling roots cannot lose the list) is proved for: all nine detector+two-sample branches (mu+eta, the three bisect branches, chi+phi, mu+phi directly; "
                "eta+phi, mu+chi, eta+chi by root completeness + the soundness theorem + uniqueness of the last angle, mu_unique / eta_unique); all four single-sample branches of the "
                "detector+reference family (mu, phi, chi, eta given: ZYZ / XZY Euler angles, remainingSample_complete); and the whole three-sample family end to end "
-               "(threeSample_complete: free axis from the y-component, qaz read off, detector from qaz). The layer statements are assembled end to end for the detector + two-sample family, all 27 mode shapes "
-               "(C03Assembly / C03Detector: detSamp2_complete — a position whose forward model is the requested hkl and which honours the detector constraint and the two sample values "
-               "is among the candidates of __calc_hkl_to_position, every angle mod 2 pi; through decomposition of the forward model into the detector and sample relations, "
-               "bragg_of_fwd (the position's own theta is the Bragg angle computed from the cell), completeness of the detector layers from delta, nu and qaz incl. the sign filter, "
-               "twoSampleDetector_complete, and the walk through the nested generator loops; side condition 'no sibling root makes the sample layer raise' is explicit). "
-               "All six reference+two-sample branches are complete (C03Reference: twoSampleReference_complete behind the dispatcher — every solution of the orientation equation "
-               "Z.N_phi.PSI^T.THETA^T = F(qaz) with the two given angles is returned mod 2 pi; the __get_chi_and_qaz and __get_phi_and_qaz read-offs recover the remaining angles; the phase-shifted "
-               "asin / acos root pairs of mu+eta and chi+eta are complete in both forms the source chooses between). The end-to-end assembly for the reference+two-sample family (psi from the "
-               "reference constraint, qaz handed to the detector layer) and for the detector/naz+reference+one-sample family is covered by candidate-level correspondence + round-trip oracle only.",
+               "(threeSample_complete: free axis from the y-component, qaz read off, detector from qaz). The layer statements are assembled END TO END for all four mode families: a position whose forward model is the requested hkl and which honours the mode's constraints is among "
+               "the candidates of __calc_hkl_to_position, every angle mod 2 pi — three-sample (threeSample_complete), detector+two-sample, 27 shapes (detSamp2_complete, through decomposition of the forward "
+               "model, bragg_of_fwd, detRemaining_complete incl. the sign filter, twoSampleDetector_complete), reference+two-sample, 42 shapes (refSamp2_complete with twoSampleReference_complete for all six "
+               "branches; outright for the six psi modes), detector-or-naz+reference+one-sample, 112 shapes (detRefSamp_complete: _calc_N is a triad, the triad commutes with rotations, naz_qaz_relation, "
+               "detOrNaz_complete, remainingSample_complete). Left to correspondence + oracle: what the reference layer contributes (that P's psi is among the values __calc_psi yields; that the alpha it "
+               "derives from a beta / a_eq_b / betain / ... constraint is P's) enters the last two statements as a hypothesis on the produced value; side conditions are the generic branch at P and "
+               "'no sibling root makes a later layer raise'; the step from candidates to get_position (tidy-up, filter, guard) is filter_keeps_exact + hklMatches_exact + oracle.",
     "search_widen": 4,
 }
 
